@@ -1,5 +1,5 @@
 PROP = {'suites': ['c02', 'c02reg'],
- 'clauses': {1: 'a navigation (Location header or auto-submitted form) targeted a URI that is neither registered for the requesting client nor pushed by it'},
+ 'clauses': {1: 'a navigation (Location header or auto-submitted form) targeted a URI that is neither registered for the requesting client nor the redirect URI of the pushed request this very request redeems (for a callback: that the request which started the interaction redeemed) - a URI pushed once is not thereby acceptable in a later plain request'},
  'title': 'The authorization endpoint never redirects to an unvalidated URI',
  'text': 'Theorems over the model: nav_target_authorize and nav_target_callback (for every store and request every navigation - success, policy failure, validation error - targets a URI registered '
          'for the client or the one stored in the pushed session being redeemed), stored_redirects_validated_clients_untouched (over ALL histories: every stored session carries a validated redirect '
